@@ -328,7 +328,7 @@ func alphabet(prop string, thorough bool) []Op {
 			return pick(all...)
 		}
 		return pick("edit:src/a.txt", "edit:dir/x.txt", "const:K", "global:G", "flag:mode", "comment:BUILD.dawn", "comment+docstring:lib.dawn", "comment:pkg/BUILD.dawn",
-			"edit:misc/n.txt", "target:pkg:other", "delete:out/mid", "fail:leaf", "build:top", "build:mid", "build:leaf", "gc:full")
+			"edit:misc/n.txt", "target:pkg:other", "delete:out/mid", "fail:leaf", "build:top", "build:mid", "build:leaf", "gc:full", "dry:top")
 	case "C13":
 		if thorough {
 			return pick(all...)
